@@ -133,14 +133,6 @@ func (e *Engine) SetDevelopmentMode(enabled bool) {
 func (e *Engine) Render(name string, context map[string]interface{}) (string, error) {
 	LogInfo("Rendering template: %s", name)
 
-	// Store current template name and previous template name
-	prevTemplate := e.currentTemplate
-	e.currentTemplate = name
-	defer func() {
-		// Restore previous template name when we're done
-		e.currentTemplate = prevTemplate
-	}()
-
 	template, err := e.Load(name)
 	if err != nil {
 		LogError(err, fmt.Sprintf("Failed to load template: %s", name))
@@ -179,14 +171,6 @@ func (e *Engine) Render(name string, context map[string]interface{}) (string, er
 // RenderTo renders a template to a writer
 func (e *Engine) RenderTo(w io.Writer, name string, context map[string]interface{}) error {
 	LogInfo("Rendering template to writer: %s", name)
-
-	// Store current template name and previous template name
-	prevTemplate := e.currentTemplate
-	e.currentTemplate = name
-	defer func() {
-		// Restore previous template name when we're done
-		e.currentTemplate = prevTemplate
-	}()
 
 	template, err := e.Load(name)
 	if err != nil {
